@@ -294,11 +294,13 @@ func (r *Run) Finish(rule string) int {
 	fmt.Printf("%s %s: evaluations=%d distinct=%d violations=%d known_hits=%v wall=%.1fs exhaustive=%v\n",
 		r.ID, r.Tier, r.evals.Load(), len(r.distinct), r.violations, r.notes["known_finding_hits"],
 		time.Since(r.start).Seconds(), len(r.incomplete) == 0)
-	if len(r.harnessErr) > 0 {
-		return 2
-	}
+	// confirmed violations decide the exit code; harness errors alone (no confirmed
+	// violation) mean the machinery is at fault: exit 2, no verdict
 	if r.violations > 0 {
 		return 1
+	}
+	if len(r.harnessErr) > 0 {
+		return 2
 	}
 	return 0
 }
